@@ -204,7 +204,8 @@ func VerifC04_earlydefault() {
 // VerifC04_carriage: a carriage return is content like any other zero-width character, also right
 // before a line feed or at the end of the text: it stays in its line, in its slot.
 func VerifC04_carriage() {
-	texts := []string{"a\r\nbb", "ab\r", "\rx", "a\rb", "a\r\n\r\nb", "\r"}
+	// (the last two: a line of fewer runes but more cells than an earlier one, and the other way round)
+	texts := []string{"a\r\nbb", "ab\r", "\rx", "a\rb", "a\r\n\r\nb", "\r", "abcd\n日本語", "日本\nabc\nab"}
 	s := texts[vfChoice("text", len(texts))]
 	one := func(s string) vfCellSpec { return vfCellSpec{lines: vfLinesOf(s), declW: -1, declH: -1} }
 	t := New()
